@@ -1,4 +1,7 @@
+#[cfg(not(feature = "verif-loom"))]
 use std::sync::{Arc, Mutex};
+#[cfg(feature = "verif-loom")]
+use loom::sync::{Arc, Mutex};
 
 use rand::RngExt;
 
